@@ -29,9 +29,31 @@ type c10Body struct {
 	Body    string
 	Vouches bool   // a complete answer that vouches for an email (verified where the provider requires)
 	Email   string // the vouched email if it is not c10Email
+	Cut     int    // > 0: the whole length is announced but only this many bytes arrive before the connection closes
 }
 
-func c10TokenBodies(provider string) []c10Body {
+// c10Truncations: every proper prefix of a complete answer as the whole body (cleanly framed, so only
+// the JSON is cut), and the same answer cut on the wire at every 8th byte (the framing is cut too).
+func c10Truncations(complete c10Body) []c10Body {
+	var out []c10Body
+	for k := 1; k < len(complete.Body); k++ {
+		out = append(out, c10Body{Name: fmt.Sprintf("prefix-%03d-of-complete", k), Body: complete.Body[:k]})
+	}
+	for k := 1; k < len(complete.Body); k += 8 {
+		out = append(out, c10Body{Name: fmt.Sprintf("complete-cut-on-the-wire-at-%03d", k), Body: complete.Body, Cut: k})
+	}
+	return out
+}
+
+func c10TokenBodies(provider string, thorough bool) []c10Body {
+	b := c10TokenBodiesBase(provider)
+	if thorough {
+		b = append(b, c10Truncations(b[0])...)
+	}
+	return b
+}
+
+func c10TokenBodiesBase(provider string) []c10Body {
 	claims := func(c string) string { return b64seg(`{"alg":"none"}`) + "." + b64seg(c) + "." + b64seg("sig") }
 	good := `{"email":"` + c10Email + `","email_verified":true}`
 	tok := func(id string) string {
@@ -39,56 +61,73 @@ func c10TokenBodies(provider string) []c10Body {
 	}
 	if provider == "google" {
 		return []c10Body{
-			{"complete", tok(claims(good)), true, ""},
-			{"no-id-token", `{"access_token":"a","refresh_token":"r","expires_in":3600}`, false, ""},
-			{"id-token-0-segments", tok(""), false, ""},
-			{"id-token-1-segment", tok(b64seg(good)), false, ""},
-			{"id-token-2-segments", tok(b64seg("h") + "." + b64seg(good)), true, ""},
-			{"id-token-4-segments", tok(claims(good) + "." + b64seg("extra")), true, ""},
-			{"id-token-bad-base64", tok("aaa.!!!not-base64!!!.ccc"), false, ""},
-			{"id-token-bad-json", tok(claims(`{"email":`)), false, ""},
-			{"email-verified-false", tok(claims(`{"email":"` + c10Email + `","email_verified":false}`)), false, ""},
-			{"email-verified-absent", tok(claims(`{"email":"` + c10Email + `"}`)), false, ""},
-			{"email-verified-string", tok(claims(`{"email":"` + c10Email + `","email_verified":"true"}`)), false, ""},
-			{"empty-email", tok(claims(`{"email":"","email_verified":true}`)), false, ""},
-			{"email-is-number", tok(claims(`{"email":42,"email_verified":true}`)), false, ""},
-			{"email-without-at-sign", tok(claims(`{"email":"alice","email_verified":true}`)), true, "alice"},
-			{"truncated-json", `{"access_token":"a","id_token":"` + claims(good)[:20], false, ""},
-			{"empty-body", ``, false, ""},
-			{"html", `<html><body>Service Unavailable</body></html>`, false, ""},
-			{"json-array", `[]`, false, ""},
-			{"json-null", `null`, false, ""},
+			{Name: "complete", Body: tok(claims(good)), Vouches: true, Email: ""},
+			{Name: "no-id-token", Body: `{"access_token":"a","refresh_token":"r","expires_in":3600}`, Vouches: false, Email: ""},
+			{Name: "id-token-0-segments", Body: tok(""), Vouches: false, Email: ""},
+			{Name: "id-token-1-segment", Body: tok(b64seg(good)), Vouches: false, Email: ""},
+			{Name: "id-token-2-segments", Body: tok(b64seg("h") + "." + b64seg(good)), Vouches: true, Email: ""},
+			{Name: "id-token-4-segments", Body: tok(claims(good) + "." + b64seg("extra")), Vouches: true, Email: ""},
+			{Name: "id-token-bad-base64", Body: tok("aaa.!!!not-base64!!!.ccc"), Vouches: false, Email: ""},
+			{Name: "id-token-bad-json", Body: tok(claims(`{"email":`)), Vouches: false, Email: ""},
+			{Name: "email-verified-false", Body: tok(claims(`{"email":"` + c10Email + `","email_verified":false}`)), Vouches: false, Email: ""},
+			{Name: "email-verified-absent", Body: tok(claims(`{"email":"` + c10Email + `"}`)), Vouches: false, Email: ""},
+			{Name: "email-verified-string", Body: tok(claims(`{"email":"` + c10Email + `","email_verified":"true"}`)), Vouches: false, Email: ""},
+			{Name: "empty-email", Body: tok(claims(`{"email":"","email_verified":true}`)), Vouches: false, Email: ""},
+			{Name: "email-is-number", Body: tok(claims(`{"email":42,"email_verified":true}`)), Vouches: false, Email: ""},
+			{Name: "email-without-at-sign", Body: tok(claims(`{"email":"alice","email_verified":true}`)), Vouches: true, Email: "alice"},
+			{Name: "truncated-json", Body: `{"access_token":"a","id_token":"` + claims(good)[:20], Vouches: false, Email: ""},
+			{Name: "empty-body", Body: ``, Vouches: false, Email: ""},
+			{Name: "html", Body: `<html><body>Service Unavailable</body></html>`, Vouches: false, Email: ""},
+			{Name: "json-array", Body: `[]`, Vouches: false, Email: ""},
+			{Name: "json-null", Body: `null`, Vouches: false, Email: ""},
 		}
 	}
 	// Okta and Cognito take the email from the userinfo call; the id_token they also receive names
 	// ANOTHER, unverified address, which must never end up in a session
 	other := claims(`{"email":"not.vouched@evil.test","email_verified":false}`)
 	return []c10Body{
-		{"complete", tok(other), true, ""},
-		{"no-access-token", `{"refresh_token":"r","expires_in":3600}`, false, ""},
-		{"truncated-json", `{"access_token":"idp-acc`, false, ""},
-		{"empty-body", ``, false, ""},
-		{"html", `<html><body>Bad Gateway</body></html>`, false, ""},
-		{"json-null", `null`, false, ""},
+		{Name: "complete", Body: tok(other), Vouches: true, Email: ""},
+		{Name: "no-access-token", Body: `{"refresh_token":"r","expires_in":3600}`, Vouches: false, Email: ""},
+		{Name: "truncated-json", Body: `{"access_token":"idp-acc`, Vouches: false, Email: ""},
+		{Name: "empty-body", Body: ``, Vouches: false, Email: ""},
+		{Name: "html", Body: `<html><body>Bad Gateway</body></html>`, Vouches: false, Email: ""},
+		{Name: "json-null", Body: `null`, Vouches: false, Email: ""},
 	}
 }
 
-func c10UserinfoBodies(provider string) []c10Body {
+func c10UserinfoBodies(provider string, thorough bool) []c10Body {
+	b := c10UserinfoBodiesBase(provider)
+	if thorough {
+		ver := provider == "okta"
+		b = append(b,
+			c10Body{Name: "email-verified-number", Body: `{"email":"` + c10Email + `","email_verified":1}`, Vouches: !ver},
+			c10Body{Name: "email-verified-null", Body: `{"email":"` + c10Email + `","email_verified":null}`, Vouches: !ver},
+			c10Body{Name: "email-verified-string-false", Body: `{"email":"` + c10Email + `","email_verified":"false"}`, Vouches: !ver},
+			c10Body{Name: "email-is-array", Body: `{"email":["` + c10Email + `"],"email_verified":true}`},
+			c10Body{Name: "email-is-null", Body: `{"email":null,"email_verified":true}`},
+			c10Body{Name: "json-array", Body: `[{"email":"` + c10Email + `","email_verified":true}]`},
+			c10Body{Name: "two-objects", Body: `{"email":"","email_verified":true}{"email":"` + c10Email + `","email_verified":true}`})
+		b = append(b, c10Truncations(b[0])...)
+	}
+	return b
+}
+
+func c10UserinfoBodiesBase(provider string) []c10Body {
 	ver := provider == "okta"
 	return []c10Body{
-		{"complete-verified", `{"email":"` + c10Email + `","email_verified":true,"groups":["eng"]}`, true, ""},
-		{"email-verified-false", `{"email":"` + c10Email + `","email_verified":false}`, !ver, ""},
-		{"email-verified-absent", `{"email":"` + c10Email + `"}`, !ver, ""},
+		{Name: "complete-verified", Body: `{"email":"` + c10Email + `","email_verified":true,"groups":["eng"]}`, Vouches: true, Email: ""},
+		{Name: "email-verified-false", Body: `{"email":"` + c10Email + `","email_verified":false}`, Vouches: !ver},
+		{Name: "email-verified-absent", Body: `{"email":"` + c10Email + `"}`, Vouches: !ver},
 		// Cognito reports email_verified as a string and the statement does not require it there; for
 		// Okta (boolean field) a string is a malformed answer
-		{"email-verified-string", `{"email":"` + c10Email + `","email_verified":"true"}`, !ver, ""},
-		{"empty-email", `{"email":"","email_verified":true}`, false, ""},
-		{"no-email", `{"email_verified":true,"sub":"123"}`, false, ""},
-		{"email-without-at-sign", `{"email":"alice","username":"alice","email_verified":true}`, true, "alice"},
-		{"truncated-json", `{"email":"` + c10Email, false, ""},
-		{"empty-body", ``, false, ""},
-		{"html", `<html>login</html>`, false, ""},
-		{"json-null", `null`, false, ""},
+		{Name: "email-verified-string", Body: `{"email":"` + c10Email + `","email_verified":"true"}`, Vouches: !ver},
+		{Name: "empty-email", Body: `{"email":"","email_verified":true}`, Vouches: false, Email: ""},
+		{Name: "no-email", Body: `{"email_verified":true,"sub":"123"}`, Vouches: false, Email: ""},
+		{Name: "email-without-at-sign", Body: `{"email":"alice","username":"alice","email_verified":true}`, Vouches: true, Email: "alice"},
+		{Name: "truncated-json", Body: `{"email":"` + c10Email, Vouches: false, Email: ""},
+		{Name: "empty-body", Body: ``, Vouches: false, Email: ""},
+		{Name: "html", Body: `<html>login</html>`, Vouches: false, Email: ""},
+		{Name: "json-null", Body: `null`, Vouches: false, Email: ""},
 	}
 }
 
@@ -125,24 +164,31 @@ func c10Run(c *fw.Ctx) {
 	if err != nil {
 		panic(explore.HarnessError{Msg: err.Error()})
 	}
-	targets := []string{"google/Redeem", "okta/Redeem", "cognito/Redeem", "okta/callback"}
+	targets := []string{"google/Redeem", "okta/Redeem", "cognito/Redeem", "okta/callback", "cognito/callback"}
+	ce := envs.get("e2e-cognito", harness.AuthOpts{EmailDomains: []string{"corp.test"}, RootDomains: []string{"sso.test"}, ProviderType: "cognito"})
+	tStatuses, uStatuses := c10Statuses, []int{200, 401, 500, 429}
+	if c.Thorough() {
+		tStatuses = append(append([]int{}, c10Statuses...), 302, 404, 502)
+		uStatuses = append(uStatuses, 302, 403, 404, 503)
+	}
 
 	drive(c, "product", -1, func(x *explore.Exec, owned bool) {
 		target := targets[x.Choose("target", len(targets))]
 		provider := strings.Split(target, "/")[0]
-		tb := c10TokenBodies(provider)
-		tStatus := c10Statuses[x.Choose("token-status", len(c10Statuses))]
+		tb := c10TokenBodies(provider, c.Thorough())
+		tStatus := tStatuses[x.Choose("token-status", len(tStatuses))]
 		tBody := tb[x.Choose("token-body", len(tb))]
 		tReset := x.Choose("token-reset", 2) == 1
 		var uStatus int
 		var uBody c10Body
 		uReset := false
 		userinfoAsked := false
-		idp.Answer = func(cl *harness.IdPCall) harness.AuthAnswer {
+		answer := func(cl *harness.IdPCall) harness.AuthAnswer {
 			a := ans(500, "unexpected")
 			switch cl.Endpoint {
 			case "token":
 				a = ans(tStatus, tBody.Body)
+				a.Cut = tBody.Cut
 				if tReset {
 					a = harness.AuthAnswer{Reset: true}
 				}
@@ -150,12 +196,13 @@ func c10Run(c *fw.Ctx) {
 				if !userinfoAsked {
 					// on-demand: the userinfo answer is only enumerated on executions that ask for it
 					userinfoAsked = true
-					ub := c10UserinfoBodies(provider)
-					uStatus = []int{200, 401, 500, 429}[x.Choose("userinfo-status", 4)]
+					ub := c10UserinfoBodies(provider, c.Thorough())
+					uStatus = uStatuses[x.Choose("userinfo-status", len(uStatuses))]
 					uBody = ub[x.Choose("userinfo-body", len(ub))]
 					uReset = x.Choose("userinfo-reset", 2) == 1
 				}
 				a = ans(uStatus, uBody.Body)
+				a.Cut = uBody.Cut
 				if uReset {
 					a = harness.AuthAnswer{Reset: true}
 				}
@@ -163,6 +210,7 @@ func c10Run(c *fw.Ctx) {
 			cl.Answer = describeAnswer(a)
 			return a
 		}
+		idp.Answer, ce.IdP.Answer = answer, answer
 		var sess *sessions.SessionState
 		var panicked interface{}
 		var callErr error
@@ -180,7 +228,11 @@ func c10Run(c *fw.Ctx) {
 				sess, callErr = op.Redeem("https://"+harness.AuthHost+"/idp/callback", "the-code")
 			case "cognito/Redeem":
 				sess, callErr = cp.Redeem("https://"+harness.AuthHost+"/idp/callback", "the-code")
-			case "okta/callback":
+			case "okta/callback", "cognito/callback":
+				e := e
+				if provider == "cognito" {
+					e = ce
+				}
 				nonce := "0123456789abcdef"
 				q := url.Values{}
 				q.Set("code", "the-code")
@@ -216,7 +268,7 @@ func c10Run(c *fw.Ctx) {
 				wantEmail = uBody.Email
 			}
 		}
-		if target == "okta/callback" && !strings.HasSuffix(wantEmail, "@corp.test") {
+		if strings.HasSuffix(target, "/callback") && !strings.HasSuffix(wantEmail, "@corp.test") {
 			vouched = false // vouched for by the provider, but the authenticator's own email rule refuses it
 		}
 		desc := map[string]interface{}{"target": target, "token_status": tStatus, "token_body": tBody.Name, "token_connection_reset": tReset,
@@ -253,7 +305,7 @@ func c10Run(c *fw.Ctx) {
 			case sess.Email != wantEmail:
 				viol("session-wrong-email/"+target, fmt.Sprintf("session email %q, provider said %q", sess.Email, wantEmail))
 			}
-		} else if target == "okta/callback" {
+		} else if strings.HasSuffix(target, "/callback") {
 			if status < 400 {
 				viol("no-error-response/"+target, fmt.Sprintf("no session was created but the response was %d", status))
 			}
@@ -268,7 +320,8 @@ func init() {
 		ID:    "C10",
 		Level: "fault_enumeration",
 		Rule: "full product of identity-provider answers, with the userinfo answer enumerated on demand (only on executions that reach that call): token endpoint status {200,400,401,403,429,500,503} x body {complete, missing fields, id_token with 0/1/2/4 segments, bad base64, bad JSON, email_verified false/absent/string, empty or non-string email, truncated JSON, empty, HTML, array, null} x connection reset; userinfo status {200,401,500,429} x body {verified, unverified, absent flag, string flag, empty/no email, truncated, empty, HTML, null} x connection reset; " +
-			"targets: GoogleProvider.Redeem, OktaProvider.Redeem, AmazonCognitoProvider.Redeem (URLs pointed at the scripted IdP) and Okta end-to-end through the unmodified NewAuthenticatorMux /callback; " +
+			"targets: GoogleProvider.Redeem, OktaProvider.Redeem, AmazonCognitoProvider.Redeem (URLs pointed at the scripted IdP) and Okta and Cognito end-to-end through the unmodified NewAuthenticatorMux /callback; " +
+			"thorough adds: EVERY proper prefix of the complete token answer and of the complete userinfo answer as a cleanly framed body, the same answers cut on the wire at every 8th byte (full Content-Length announced, connection closed early), statuses 302/404/502 (userinfo: 302/403/404/503), email_verified as number/null/\"false\", email as array/null, a JSON array, two concatenated objects; " +
 			"oracle: a session exists => the provider answered 200 with a complete answer for exactly that email, verified where Google/Okta require it; every other answer => an error (>= 400 page, no session cookie); a panic counts as a crash of the request; " +
 			"distinct_nontrivial = distinct (target, token status/body/reset, userinfo status/body/reset, session?, panic?)",
 		Assumptions:    []string{"Google's endpoints are hard-coded in the constructor, so Google is driven at provider level with its exported URL fields redirected; id_token signatures are not verified by sso (out of scope of the statement)"},
